@@ -52,8 +52,10 @@ def collapseToSingle(items: Sequence, label: str):
 #  date/time utilities
 ###############################################################################
 def gmt_offset(hours: int, minutes: int) -> datetime.timedelta:
-    assert hours in range(-12, 15)
-    assert minutes >= 0
+    if hours not in range(-12, 15):
+        raise ValueError(f"GMT offset hours={hours} is outside -12..+14")
+    if minutes not in range(0, 60):
+        raise ValueError(f"GMT offset minutes={minutes} is outside 0..59")
     offset_minutes = math.copysign(60 * abs(hours) + minutes, hours)
     return datetime.timedelta(minutes=offset_minutes)
 
